@@ -104,8 +104,8 @@ DictPage(ch, sty) ==
         stored == CompressW(ch.codec, body)
         ph == Struct(<<F(1, I(2)), F(2, I(Len(body))), F(3, I(Len(stored))),
                        F(7, Struct(<<F(1, I(Len(ch.dict))), F(2, I(ch.dictEnc))>>))>>)
-        hb == TSer(ph, sty)
-    IN [bytes |-> hb \o stored, hdrLen |-> Len(hb), ulen |-> Len(body), clen |-> Len(stored)]
+        hb == TSer(IF ch.dhmut.kind = "none" THEN ph ELSE Apply(ph, ch.dhmut), sty)     \* hostile-file hook (C04)
+    IN [bytes |-> hb \o stored, hdrLen |-> Len(hb), ulen |-> Len(body), clen |-> Len(stored), tree |-> ph]
 
 \* ---- one chunk placed at file offset `off`: returns [bytes, meta (thrift ColumnChunk)]
 ChunkW(ch, off, extras, sty) ==
